@@ -533,7 +533,18 @@ def _run_case(cfg: Dict[str, Any], tmp: str, pids: List[int]) -> Dict[str, Any]:
     marker = os.fsencode(tmp + os.sep)
 
     with _parent_env():
-        expected_default = {k: os.environ[k] for k in DEFAULT_NAMES}
+        # reference for "env absent or empty": what the library documents as the default environment,
+        # evaluated under the same parent environment; restricted to the documented POSIX names so that
+        # a reference which itself inherits everything cannot legitimise a leak
+        from chuk_mcp.mcp_client.host.environment import get_default_environment
+        try:
+            lib_default = dict(get_default_environment())
+        except Exception as e:  # noqa: BLE001
+            raise core.HarnessError(f"get_default_environment() raised {e!r}")
+        expected_default = {k: v for k, v in lib_default.items() if k in DEFAULT_NAMES}
+        if not expected_default:
+            raise core.HarnessError("get_default_environment() names none of the documented variables: "
+                                    "the env-absent comparison would be vacuous")
         quiet = _Quiet()
         try:
             with _Watchdog(CASE_LIMIT_S):
@@ -653,12 +664,13 @@ def _run_case(cfg: Dict[str, Any], tmp: str, pids: List[int]) -> Dict[str, Any]:
             if have != want:
                 add({"class": "env-mismatch", "entry": entry, "env": ENVS[shape[1]][0]},
                     f"server {NAMES[i]!r}: child environment restricted to the {kind} names is {have!r}, expected {want!r}")
-            leaked = sorted(k for k in CANARIES if k not in want and k in got_env)
+            conf_keys = set(conf_env) if (conf_env is not ABSENT and conf_env) else set()
+            leaked = sorted(k for k in CANARIES if k not in conf_keys and k in got_env)
             summary["leaked"] = leaked
             if leaked:
                 add({"class": "env-leak", "entry": entry, "env": ENVS[shape[1]][0]},
                     f"server {NAMES[i]!r}: parent-only variables {leaked!r} reached the child "
-                    f"(configured env: {'absent' if conf_env is ABSENT else conf_env!r})")
+                    f"(configured env: {'absent' if conf_env is ABSENT else repr(conf_env)})")
             methods = [m for m, _ in L["methods"]]
             summary["methods"] = methods
             got_init = "initialize" in methods
@@ -838,7 +850,6 @@ def run(tier: str, only=None) -> core.Result:
             for idx in sorted({0, len(cfgs) // 2, len(cfgs) - 1}):
                 cov["samples"].append({"part": name, "index": idx, "cfg": cfgs[idx], "case": case_text(cfgs[idx])})
     launches = sum(p["counters"].get("witness_launches", 0) for p in res.parts.values())
-    cov["programs"] = launches
     cov["real_child_processes_spawned"] = launches
     cov["handshakes_seen_by_witness"] = sum(p["counters"].get("handshakes_seen_by_witness", 0)
                                             for p in res.parts.values())
@@ -879,7 +890,8 @@ def run(tier: str, only=None) -> core.Result:
         "the parent environment is fixed for the duration of each call (HOME, LOGNAME, PATH, SHELL, TERM, USER set to non-empty "
         "values not starting with '()'; canaries A, B, C20_CANARY); empty or '()'-prefixed parent values, LOG_LEVEL handling and "
         "non-POSIX default names are not exercised",
-        "env absent or {} is judged only on the documented default-inherited names (restricted comparison) plus 'no parent-only "
+        "env absent or {} is judged against the library's own get_default_environment() evaluated under the same parent "
+        "environment, restricted to the documented POSIX names (HOME, LOGNAME, PATH, SHELL, TERM, USER), plus 'no parent-only "
         "canary reaches the child'; with a configured env only the configured keys are compared, so additional default "
         "variables merged in by the library would be accepted",
         "handshake reached = the witness received 'initialize' and later 'notifications/initialized' in that launch; what the "
